@@ -21,6 +21,8 @@
 //	hp, pp  <decoded bytes hex>=<canonical parse | !> of the header / payload part, or ~
 //	tag     generator name and, when known by construction, the expected outcome
 //
+//	C09|X|..., C09|I|...   JWK export / import on key material: see jwk.go
+//
 // Observation: badopts | rej | ok typ=..;iss=..;sub=..;jti=..;aud=..;exp=..;nbf=..;iat=..;pl=<canonical payload>
 // (J: prefixed with "priv=refused jwk=<alg.kid,...> "; E: rawerr | signerr | tok h=..;p=..;sig=1;mut=rej;<verify result>).
 package c09
@@ -327,6 +329,10 @@ func run(in string) string {
 		return note + verifyObs(vf, parseVO(f[4]), string(hx.UH(f[5])))
 	case "E":
 		return runE(f)
+	case "X":
+		return runX(f)
+	case "I":
+		return runI(f)
 	}
 	return "SETUP-FAIL unknown kind"
 }
@@ -482,6 +488,9 @@ func lineE(prim string, d kd, r ro, o vo, tag string) string {
 
 func class(in, obs string) string {
 	f := strings.Split(in, "|")
+	if f[1] == "X" || f[1] == "I" {
+		return classJWK(f, obs)
+	}
 	res := obs
 	if i := strings.IndexAny(obs, " "); i > 0 {
 		res = obs[:i]
